@@ -34,6 +34,9 @@ func runC06(r *Runner, g *Gen, tier string) string {
 		}
 		pre := g.r.Bytes(g.r.Pick3(0, 6, 40))
 		capExtra := []int{0, 1, 8, 64, 4096}[g.r.Intn(5)]
+		if g.r.P(40) {
+			capExtra = g.r.Intn(40) // every small amount of room: the encoding runs out of it at every possible point
+		}
 		mode := "ptr"
 		if g.r.P(45) {
 			mode = "val"
@@ -45,7 +48,17 @@ func runC06(r *Runner, g *Gen, tier string) string {
 			r.Do(op, len(pre) > 0, "app.repeat")
 		}
 	}
-	return "generated types and values (25% zero values that encode to nothing; no multi-entry maps), random prefix contents (0..40 bytes), spare capacity 0/1/8/64/4096, by pointer and by value (incl. pointer-shaped structs), repeated calls; compared: the returned bytes = prefix ++ Marshal(nil, v); non-trivial = non-empty prefix"
+	// widest varints and fixed-width values with every amount of spare capacity up to a little beyond the encoding
+	wide := Struct(F("A", "1", B("uint64")), &FieldDef{Name: "B", Exported: true, Plenc: "2,flat", T: B("int64")}, F("C", "3", B("int64")),
+		F("T", "4", &TyDef{K: "time"}), F("F", "5", B("f64")), F("S", "6", B("str")))
+	for _, a := range []uint64{1 << 63, ^uint64(0), 1<<56 - 1, 1 << 56, 127, 128} {
+		v := &Val{K: "r", L: []*Val{{K: "u", U: a}, {K: "i", I: -1}, {K: "i", I: -1 << 63}, {K: "T", Sec: 1700000000, Nsec: 999999999},
+			{K: "f64", U: 0x4009_21fb_5444_2d18}, {K: "s", Data: []byte("hello")}}}
+		for capExtra := 0; capExtra <= 64; capExtra++ {
+			r.Do(codecOp("app", "00", wide, "", v.Sexp(), A(hx([]byte{9})), A(fmt.Sprint(capExtra)), A("ptr")), true, "app.capsweep")
+		}
+	}
+	return "generated types and values (25% zero values that encode to nothing; no multi-entry maps), random prefix contents (0..40 bytes), spare capacity 0/1/8/64/4096 and every value below 40, a sweep of all capacities 0..64 under a struct of 10-byte varints, a time, a float and a string, by pointer and by value (incl. pointer-shaped structs), repeated calls; compared: the returned bytes = prefix ++ Marshal(nil, v); non-trivial = non-empty prefix"
 }
 
 // ifaceShaped: struct types around the boundary of "stored directly in the
@@ -91,6 +104,9 @@ func runC10(r *Runner, g *Gen, tier string) string {
 		b1, b2 := 30, 30
 		prior := g.Value(t, &b1)
 		v := g.Value(t, &b2)
+		if g.r.P(12) {
+			t, prior, v = g.reuseCase()
+		}
 		if knownShape(cfg, t, false) {
 			continue
 		}
@@ -99,6 +115,50 @@ func runC10(r *Runner, g *Gen, tier string) string {
 		r.Do(codecOp("decm", cfg, t, "", v.Sexp(), A("zero")), nontrivialVal(t, v), "decm.fresh-after")
 	}
 	return "pairs (prior target contents, encoded value) of one generated type: Unmarshal into a target pre-populated with an unrelated value (longer/shorter slices, populated maps, non-nil pointers), then into a fresh variable through the same instance; compared: the full target value after each call (merge rules) ; the instance is shared by all ops of the run (pools, intern tables, codec caches carry history)"
+}
+
+// reuseCase: containers of structs and of pointers to structs whose target is
+// fully populated with non-zero values at least as long as the new contents, and
+// whose new elements leave fields at zero (absent from the data): every reused
+// slot, pointee and key must be cleared or replaced, not merged into.
+func (g *Gen) reuseCase() (*TyDef, *Val, *Val) {
+	inner := Struct(F("A", "1", B("int")), F("B", "2", B("str")), F("C", "3", Ptr(B("int"))), F("D", "4", Slice(B("int"))))
+	full := func(k int64) *Val {
+		return &Val{K: "r", L: []*Val{{K: "i", I: 100 + k}, {K: "s", Data: []byte(fmt.Sprintf("old%d", k))},
+			{K: "p", P: &Val{K: "i", I: 7 + k}}, {K: "l", L: []*Val{{K: "i", I: k + 1}, {K: "i", I: k + 2}}}}}
+	}
+	sparse := func() *Val {
+		out := &Val{K: "r", L: []*Val{{K: "i"}, {K: "s"}, {K: "p"}, {K: "l"}}}
+		switch g.r.Intn(4) {
+		case 0:
+			out.L[0] = &Val{K: "i", I: int64(1 + g.r.Intn(9))}
+		case 1:
+			out.L[1] = &Val{K: "s", Data: []byte("n")}
+		case 2:
+			out.L[2] = &Val{K: "p", P: &Val{K: "i"}}
+		}
+		return out
+	}
+	ptr := func(v *Val) *Val { return &Val{K: "p", P: v} }
+	t := Struct(F("PS", "1", Slice(Ptr(inner))), F("VS", "2", Slice(inner)), F("P", "3", Ptr(inner)),
+		F("M", "4", Map(B("str"), Ptr(inner))), F("V", "5", inner))
+	nOld := 2 + g.r.Intn(4)
+	nNew := 1 + g.r.Intn(nOld)
+	prior := &Val{K: "r", L: []*Val{{K: "l"}, {K: "l"}, ptr(full(50)), {K: "m", M: [][2]*Val{{{K: "s", Data: []byte("k")}, ptr(full(60))}}}, full(70)}}
+	for i := 0; i < nOld; i++ {
+		prior.L[0].L = append(prior.L[0].L, ptr(full(int64(i))))
+		prior.L[1].L = append(prior.L[1].L, full(int64(10+i)))
+	}
+	v := &Val{K: "r", L: []*Val{{K: "l"}, {K: "l"}, ptr(sparse()), {K: "m", M: [][2]*Val{{{K: "s", Data: []byte("k")}, ptr(sparse())}}}, sparse()}}
+	for i := 0; i < nNew; i++ {
+		v.L[0].L = append(v.L[0].L, ptr(sparse()))
+		v.L[1].L = append(v.L[1].L, sparse())
+	}
+	if g.r.P(30) {
+		v.L[0] = &Val{K: "l"} // field absent: the old slice stays
+	}
+	g.count("decm.reuse-case")
+	return t, prior, v
 }
 
 // ---- C03 -------------------------------------------------------------------------
